@@ -370,6 +370,9 @@ func checkEnvelope(data []byte, expectedType msgType) ([]byte, error) {
 	}
 
 	headerLen := int(data[5])
+	if headerLen < envelopeMinHeaderLen {
+		return nil, errors.New("envelope header length is less than the envelope header")
+	}
 	if headerLen > len(data) {
 		return nil, errors.New("envelope header length exceeds data")
 	}
